@@ -356,7 +356,73 @@ def run(ctx):
                 okf = False
         (rr.inst(fid, repo.loc(b["value"].get("sp"))) if okf else rr.violate(fid, "token fields are not copied from the same-named parts of self", repo.loc(b["value"].get("sp"))))
     rr.require(20, "rule-struct instances")
+    skip_tokens_rule(ctx)
     ctx.assume("equality with pest's tree on inputs and span values are not decided; this decides which nodes contribute tokens and in what order")
     ctx.explanation = ("Every impl of Pairs and Pair in pest_typed and in the macro fixture is walked (typed HIR, calls resolved): the ordered "
                        "list of forwarded places is compared with the child-bearing fields of the type in declaration order; look-ahead types "
                        "(classified by their effect trees, not by name) must forward nothing; rule structs emit themselves or forward content.")
+
+
+def skip_tokens_rule(ctx):
+    """R02-SKIPTOK: pest matches WHITESPACE / COMMENT under Atomicity::Atomic, where inner rules produce no tokens; so a skip
+    contributes at most the WHITESPACE / COMMENT token itself (when not silent), without children."""
+    from .. import tt
+    fs = facts.load("core", "fx_skiptok")
+    fxc = fs["fx_skiptok"]
+    ex = tt.load_expect("fx_skiptok")
+    r = ctx.rule("R02-SKIPTOK", "an implicit skip contributes no token other than a non-silent WHITESPACE / COMMENT itself, and that token has no children "
+                                "(pest matches skip rules atomically: rules they reference are silent there)")
+    kinds = {"N": "normal", "S": "silent", "A": "atomic", "C": "compound-atomic", "X": "non-atomic"}
+    for mod, info in sorted(ex["modules"].items()):
+        fx = tt.Fixture(fxc, "fx_skiptok::" + mod)
+        name = info["skip_rule"]
+        kind = info["kind"]
+        t = fx.inner_type(name)
+        refs = set()
+        if t is not None:
+            def collect(td):
+                if td["k"] == "adt":
+                    if fx.is_rule_path(td["path"]):
+                        refs.add(td["path"].rsplit("::", 1)[-1])
+                        return
+                    for a in td.get("args", []):
+                        if "t" in a:
+                            collect(fxc.types[a["t"]])
+                elif td["k"] == "tuple":
+                    for e in td["elems"]:
+                        collect(fxc.types[e])
+            collect(t)
+        pairs = fx.impl_item(PAIRS, name)
+        pair = fx.impl_item(PAIR, name)
+        emits = Fwd(fxc, fxc.body(nodes.Impl(fxc, pairs).methods["for_self_or_each_child"])).acts if pairs else None
+        child = Fwd(fxc, fxc.body(nodes.Impl(fxc, pair).methods["for_each_child"])).acts if pair else []
+        key = "skip rule of kind %s (%s)" % (kind, kinds[kind])
+        loc = fxc.loc(fx.rules[name].get("sp")) if name in fx.rules else None
+        leaks = []
+        if emits and emits != [("emit", "as_token(self)")] and refs:
+            leaks.append("as a skip it forwards the tokens of %s" % sorted(refs))
+        if child and refs:
+            leaks.append("its own token reports %s as children" % sorted(refs))
+        if leaks:
+            r.violate(key, "%s = %s{..} referencing other rules: %s; pest produces no such tokens" % (name, {"N": "", "S": "_", "A": "@", "C": "$", "X": "!"}[kind], "; ".join(leaks)), loc)
+        else:
+            r.inst(key + " [%s]" % name, loc, "ok", {"emits": emits, "children": child})
+    r.require(2, "skip-rule kinds")
+    # the skip rules are instantiated atomically in the skip type (pest runs them under Atomicity::Atomic): const 0
+    ra = ctx.rule("R02-SKIPATOMIC", "generics::Skipped instantiates WHITESPACE / COMMENT with the atomic constant 0, so a skip token is never split or nested by "
+                                    "skipping inside the skip rule itself")
+    import re as _re
+    for mod, info in sorted(ex["modules"].items()):
+        al = fxc.item("fx_skiptok::%s::generics::Skipped" % mod)
+        if al is None or "alias_of" not in al:
+            ra.violate(mod, "generics::Skipped alias missing")
+            continue
+        s = fxc.tys(al["alias_of"])
+        uses = _re.findall(r"rules::(WHITESPACE|COMMENT)<([^<>]*)>", s)
+        bad = [(n, a) for n, a in uses if not _re.search(r",\s*0\s*$", a)]
+        key = "Skipped alias when %s is defined%s" % (info["skip_rule"], " (with WHITESPACE)" if info["skip_rule"] == "COMMENT" else " alone")
+        if bad or not uses:
+            ra.violate(key, "skip type is %s: %s not instantiated with the atomic constant 0" % (s.replace("fx_skiptok::%s::rules_impl::" % mod, ""), [b[0] for b in bad] or "skip rules"), fxc.loc(al.get("sp")))
+        else:
+            ra.inst(key + " [%s]" % mod, fxc.loc(al.get("sp")), "ok", {"skip": s.replace("fx_skiptok::%s::rules_impl::" % mod, "")})
+    ra.require(10, "grammars")
